@@ -121,6 +121,9 @@ class Bundler:
         self.monitors_suspended = False
         self.stop = None
         self.n_interruptions = 0
+        self.uncollected = False        # a flyer was kicked off in this run and not collected since
+        self.monitoring = False         # the run holds a monitor subscription on a device
+        self.closed_by_plan = False
         self.record = record_interruptions
         eng.bundlers.append(self)
         self.idx = len(eng.bundlers)
@@ -139,6 +142,8 @@ class Bundler:
             msg = a[0]
             me.stop = {"exit_status": msg.kwargs.get("exit_status", "success") or "success", "reason": msg.kwargs.get("reason") or ""}
             me.open = False
+            me.monitoring = False                      # close_run removes the run's monitor subscriptions
+            me.closed_by_plan = "exit_status" not in msg.kwargs
             ev("close_run", me, msg)
             return aio.Ready(me.uid)
 
@@ -161,8 +166,43 @@ class Bundler:
         def rec(I_, o, a, k):
             me.n_interruptions += 1
             ev("record_interruption", me, a[0])
+        # flyers and monitors (contract of RunBundler.kickoff / collect / backstop_collect / monitor / unmonitor / clear_monitors / close_run:
+        # kickoff remembers the flyer as uncollected; collect and backstop_collect (attempt to) collect; close_run and clear_monitors
+        # remove every monitor subscription of the run)
+        def kickoff(I_, o, a, k):
+            me.uncollected = True
+            ev("kickoff", me)
+            return aio.Ready(None)
+
+        def collect(I_, o, a, k):
+            me.uncollected = False
+            ev("collect", me)
+            return aio.Ready(None)
+
+        def backstop(I_, o, a, k):
+            if me.uncollected:
+                me.uncollected = False
+                ev("backstop_collect", me)
+            return aio.Ready(None)
+
+        def monitor(I_, o, a, k):
+            me.monitoring = True
+            ev("monitor", me)
+            return aio.Ready(None)
+
+        def unmonitor(I_, o, a, k):
+            if not me.monitoring:
+                raise PyRaise(Obj(I_.P.class_info(MU, "IllegalMessageSequence"), {"args": ("not monitored",), "__cause__": None}))
+            me.monitoring = False
+            ev("unmonitor", me)
+            return aio.Ready(None)
+
+        def clear_monitors(I_, o, a, k):
+            me.monitoring = False
+            ev("clear_monitors", me)
         meths = {"open_run": m_open, "close_run": m_close, "suspend_monitors": susp, "restore_monitors": rest, "record_interruption": rec,
-                 "clear_monitors": simple("clear_monitors", awaitable=False), "backstop_collect": simple("backstop_collect"),
+                 "kickoff": kickoff, "collect": collect, "monitor": monitor, "unmonitor": unmonitor,
+                 "clear_monitors": clear_monitors, "backstop_collect": backstop,
                  "rewind": simple("rewind", awaitable=False), "reset_checkpoint_state": simple("reset_checkpoint_state", awaitable=False),
                  "clear_checkpoint": simple("clear_checkpoint"), "reset_checkpoint_state_coro": simple("reset_checkpoint_state")}
         self.facade = Opaque(f"bundler{self.idx}", {"methods": meths, "truth": True, "isinstance_default": False,
@@ -170,7 +210,7 @@ class Bundler:
         self.facade.attrs["$model"] = self
 
     def canon(self, cn):
-        return (cn.name(self, "bundler"), self.open, self.bundling, self.monitors_suspended, cn.c(self.stop))
+        return (cn.name(self, "bundler"), self.open, self.bundling, self.monitors_suspended, cn.c(self.stop), self.uncollected, self.monitoring)
 
 
 class ReplayPlan(AbsGen):
